@@ -378,6 +378,20 @@ def run(ctx):
                  "thorough: all 561) + classics + seeded 3-element bases that pass the special-simples test; the flag says whether the check_all / dfa= routes are also exercised when the special-simples test "
                  "already fails (quick: every 8th); non-trivial = the pin-sequence automaton is consulted")
     ctx.add_sample("C16.has_finite_simples", (classics[5], True))
+    # bases with an element of length 6, in particular one that is NOT a pin permutation (every permutation of
+    # length <= 5 is one; 56 of the 720 of length 6 are not): no pin word exists for that element
+    with_pins = set(_pw().pinword_to_perm_mapping(6).values())
+    p6 = D.perms(6)
+    nonpin6 = [p for p in p6 if p not in with_pins]
+    six = []
+    for j in range(18 if quick else 120):
+        big = rng.choice(nonpin6) if j % 3 else rng.choice(p6)
+        rest = [rng.choice(pool1[1:]) for _ in range(rng.choice((0, 1, 1, 2)))]
+        six.append((tuple(rest + [big]), True))
+    six += [((Perm((0, 2, 1)), Perm((3, 4, 5, 0, 1, 2))), True), ((Perm((0, 1, 2, 3)), Perm((2, 1, 0, 5, 4, 3))), True)]
+    ctx.run("C16.has_finite_simples", six, chunk=10,
+            rule=f"{len(six)} seeded bases of 1-3 perms with one element of length 6, two thirds of them with one of the "
+                 f"{len(nonpin6)} permutations of length 6 that are not pin permutations")
 
     sc = [b for b in small1 + (rng.sample(triples1, 300) if quick else rng.sample(triples1, 2000))
           if G.spec_is_polynomial(_tuples(b)) or G.spec_is_finite(_tuples(b))]
